@@ -55,6 +55,9 @@ type LP struct {
 	HasFragment    bool    `json:"hfrag,omitempty"`
 	// Other header fields seen by Parse (types), in order of appearance.
 	Other []uint64 `json:"other,omitempty"`
+	// ExtraHdr: raw bytes (already encoded TLVs, or anything) that Encode places after the
+	// known header fields and before the Fragment. Not filled in by Parse.
+	ExtraHdr []byte `json:"xh,omitempty"`
 }
 
 func U64(v uint64) *uint64 { return &v }
@@ -85,6 +88,7 @@ func (p LP) header() []byte {
 	if p.CongestionMark != nil {
 		v = tlvwalk.AppendNNI(v, TCongestionMark, *p.CongestionMark)
 	}
+	v = append(v, p.ExtraHdr...)
 	return v
 }
 
@@ -190,54 +194,104 @@ func Parse(frame []byte) (LP, error) {
 
 // ---------------------------------------------------------------------------- packets
 
-// nameWire encodes /<label>/<pad bytes of 'p'>  (the second component only if pad >= 0).
-func nameWire(label string, pad int) []byte {
-	v := tlvwalk.EncodeTLV(TGeneric, []byte(label))
+func tlvSize(typ uint64, valueLen int) int {
+	return tlvwalk.VarNumSize(typ) + tlvwalk.VarNumSize(uint64(valueLen)) + valueLen
+}
+
+// nameSize / nameWire: /<label>/<pad bytes of 'p'>  (the second component only if pad >= 0).
+func nameSize(label string, pad int) int {
+	v := tlvSize(TGeneric, len(label))
 	if pad >= 0 {
-		b := make([]byte, pad)
-		for i := range b {
-			b[i] = 'p'
-		}
-		v = tlvwalk.AppendTLV(v, TGeneric, b)
+		v += tlvSize(TGeneric, pad)
 	}
-	return tlvwalk.EncodeTLV(TName, v)
+	return tlvSize(TName, v)
 }
 
-func fill(n int, seed byte) []byte {
-	b := make([]byte, n)
+func nameWire(dst []byte, label string, pad int) []byte {
+	v := tlvSize(TGeneric, len(label))
+	if pad >= 0 {
+		v += tlvSize(TGeneric, pad)
+	}
+	dst = tlvwalk.AppendVarNum(dst, TName)
+	dst = tlvwalk.AppendVarNum(dst, uint64(v))
+	dst = tlvwalk.AppendTLV(dst, TGeneric, []byte(label))
+	if pad >= 0 {
+		dst = tlvwalk.AppendVarNum(dst, TGeneric)
+		dst = tlvwalk.AppendVarNum(dst, uint64(pad))
+		for i := 0; i < pad; i++ {
+			dst = append(dst, 'p')
+		}
+	}
+	return dst
+}
+
+func appendFill(dst []byte, n int, seed byte) []byte {
 	x := uint32(seed)*2654435761 + 12345
-	for i := range b {
-		x = x*1664525 + 1013904223
-		b[i] = byte(x >> 24)
-	}
-	return b
-}
-
-// dataWire: Data = Name [Content] SignatureInfo(DigestSha256) SignatureValue(empty).
-func dataWire(label string, pad int, content int, seed byte) []byte {
-	v := nameWire(label, pad)
-	if content >= 0 {
-		v = tlvwalk.AppendTLV(v, 0x15, fill(content, seed))
-	}
-	v = tlvwalk.AppendTLV(v, 0x16, tlvwalk.EncodeTLV(0x1b, []byte{0}))
-	v = tlvwalk.AppendTLV(v, 0x17, nil)
-	return tlvwalk.EncodeTLV(TData, v)
-}
-
-// interestWire: Interest = Name Nonce [InterestLifetime of life bytes]; size is steered
-// through the padding name component and the width of the lifetime.
-func interestWire(label string, pad int, life int, seed byte) []byte {
-	v := nameWire(label, pad)
-	v = tlvwalk.AppendTLV(v, 0x0a, []byte{seed, 0x11, 0x22, 0x33})
-	if life > 0 {
-		lt := make([]byte, life)
-		lt[life-1] = 0xa0
-		if life > 1 {
-			lt[life-2] = 0x0f
+	for i := 0; i < n; i++ {
+		if i&3 == 0 {
+			x = x*1664525 + 1013904223
 		}
-		v = tlvwalk.AppendTLV(v, 0x0c, lt)
+		dst = append(dst, byte(x>>(8*uint(i&3))))
 	}
-	return tlvwalk.EncodeTLV(TInterest, v)
+	return dst
+}
+
+var sigTail = []byte{0x16, 0x03, 0x1b, 0x01, 0x00, 0x17, 0x00} // SignatureInfo(DigestSha256) SignatureValue(empty)
+
+// Data = Name [Content] SignatureInfo SignatureValue.
+func dataInner(label string, pad int, content int) int {
+	v := nameSize(label, pad) + len(sigTail)
+	if content >= 0 {
+		v += tlvSize(0x15, content)
+	}
+	return v
+}
+
+func dataWire(label string, pad int, content int, seed byte) []byte {
+	inner := dataInner(label, pad, content)
+	w := make([]byte, 0, tlvSize(TData, inner))
+	w = tlvwalk.AppendVarNum(w, TData)
+	w = tlvwalk.AppendVarNum(w, uint64(inner))
+	w = nameWire(w, label, pad)
+	if content >= 0 {
+		w = tlvwalk.AppendVarNum(w, 0x15)
+		w = tlvwalk.AppendVarNum(w, uint64(content))
+		w = appendFill(w, content, seed)
+	}
+	return append(w, sigTail...)
+}
+
+// Interest = Name Nonce [InterestLifetime of life bytes]; size is steered through the
+// padding name component and the width of the lifetime.
+func interestInner(label string, pad int, life int) int {
+	v := nameSize(label, pad) + 6
+	if life > 0 {
+		v += 2 + life
+	}
+	return v
+}
+
+func interestWire(label string, pad int, life int, seed byte) []byte {
+	inner := interestInner(label, pad, life)
+	w := make([]byte, 0, tlvSize(TInterest, inner))
+	w = tlvwalk.AppendVarNum(w, TInterest)
+	w = tlvwalk.AppendVarNum(w, uint64(inner))
+	w = nameWire(w, label, pad)
+	w = append(w, 0x0a, 0x04, seed, 0x11, 0x22, 0x33)
+	if life > 0 {
+		w = append(w, 0x0c, byte(life))
+		for i := 0; i < life; i++ {
+			switch i {
+			case life - 1:
+				w = append(w, 0xa0)
+			case life - 2:
+				w = append(w, 0x0f)
+			default:
+				w = append(w, 0)
+			}
+		}
+	}
+	return w
 }
 
 // tiny builds the smallest packets the repository's reader accepts: only a Name, either
@@ -262,14 +316,13 @@ func tiny(typ byte, size int, label string) ([]byte, bool) {
 	return w, true
 }
 
-// MinData / MinInterest are the smallest sizes MakeData / MakeInterest can produce for a
-// one-letter label.
-func MinData(label string) int     { return len(dataWire(label, -1, -1, 0)) }
-func MinInterest(label string) int { return len(interestWire(label, -1, 0, 0)) }
+// MinData / MinInterest are the smallest sizes of the regular (non-tiny) forms.
+func MinData(label string) int     { return tlvSize(TData, dataInner(label, -1, -1)) }
+func MinInterest(label string) int { return tlvSize(TInterest, interestInner(label, -1, 0)) }
 
 // MakeData returns a valid Data packet /<label>[/ppp…] whose wire is exactly size bytes
-// (ok=false if this size cannot be produced, which happens only below MinData and for a
-// few sizes next to it). The content bytes depend on seed.
+// (ok=false if no packet of this size exists: 1-3, 5, 255, 256). The content bytes depend
+// on seed.
 func MakeData(label string, size int, seed byte) ([]byte, bool) {
 	if size < MinData(label)+8 {
 		if w, ok := tiny(TData, size, label); ok {
@@ -279,21 +332,16 @@ func MakeData(label string, size int, seed byte) ([]byte, bool) {
 	// two knobs (name padding, content length) so that the 253 / 65536 length-of-length
 	// steps can always be compensated
 	for _, pad := range []int{-1, 0, 1, 2, 3, 4, 5, 6} {
-		for _, withContent := range []bool{false, true} {
-			if !withContent {
-				if w := dataWire(label, pad, -1, seed); len(w) == size {
-					return w, true
-				}
-				continue
-			}
-			base := len(dataWire(label, pad, 0, seed))
-			if base > size {
-				continue
-			}
-			for c := size - base; c >= 0 && c >= size-base-8; c-- {
-				if w := dataWire(label, pad, c, seed); len(w) == size {
-					return w, true
-				}
+		if tlvSize(TData, dataInner(label, pad, -1)) == size {
+			return dataWire(label, pad, -1, seed), true
+		}
+		base := tlvSize(TData, dataInner(label, pad, 0))
+		if base > size {
+			continue
+		}
+		for c := size - base; c >= 0 && c >= size-base-8; c-- {
+			if tlvSize(TData, dataInner(label, pad, c)) == size {
+				return dataWire(label, pad, c, seed), true
 			}
 		}
 	}
@@ -308,16 +356,16 @@ func MakeInterest(label string, size int, seed byte) ([]byte, bool) {
 		}
 	}
 	for _, life := range []int{2, 0, 1, 4} {
-		if w := interestWire(label, -1, life, seed); len(w) == size {
-			return w, true
+		if tlvSize(TInterest, interestInner(label, -1, life)) == size {
+			return interestWire(label, -1, life, seed), true
 		}
-		base := len(interestWire(label, 0, life, seed))
+		base := tlvSize(TInterest, interestInner(label, 0, life))
 		if base > size {
 			continue
 		}
 		for p := size - base; p >= 0 && p >= size-base-8; p-- {
-			if w := interestWire(label, p, life, seed); len(w) == size {
-				return w, true
+			if tlvSize(TInterest, interestInner(label, p, life)) == size {
+				return interestWire(label, p, life, seed), true
 			}
 		}
 	}
